@@ -144,12 +144,20 @@ func (w *W) Exec(op string) error {
 	case "meltqp":
 		a, _ := strconv.ParseUint(arg(1), 10, 64)
 		return w.opMeltQuote(op, a, -1, true)
+	case "meltqpi": // MPP partial (1 sat) melt quote on the invoice of own mint quote qi
+		return w.opMeltQuote(op, 1, ints(arg(1))[0], true)
 	case "melt":
 		return w.opMelt(op, ints(arg(1))[0], arg(2), arg(3), arg(4))
 	case "pollm":
 		return w.opPollMelt(op, ints(arg(1))[0], arg(2))
 	case "check":
 		return w.opCheck(op, arg(1), arg(2))
+	case "info": // read the info endpoint now (so that a later read can be compared after the balance moved)
+		w.ProbeInfo()
+		if bal, err := w.M.M.TotalBalance(); err == nil && w.Cfg.Limits.MaxBalance > 0 && bal >= w.Cfg.Limits.MaxBalance {
+			w.InfoReadWhileDisabled = true // part of the canonical state: the server instance has served 'disabled' once
+		}
+		return nil
 	case "restart":
 		return w.opRestart(op, false, 0)
 	case "rotate":
@@ -545,7 +553,9 @@ func (w *W) opMeltQuote(op string, amount uint64, qi int, partial bool) error {
 	var request, hash string
 	if qi >= 0 {
 		request, hash = w.Quotes[qi].Q.PaymentRequest, w.Quotes[qi].Q.PaymentHash
-		amount = w.Quotes[qi].Q.Amount
+		if !partial {
+			amount = w.Quotes[qi].Q.Amount
+		}
 	} else if partial {
 		inv := w.LN.NewExternalInvoice(amount * 2)
 		request, hash = inv.Request, inv.Hash
@@ -570,7 +580,7 @@ func (w *W) opMeltQuote(op string, amount uint64, qi int, partial bool) error {
 		w.viol("C16", "melt-quote-over-limit-accepted", "RequestMeltQuote(%d) accepted, melt max %d", amount, lim)
 	}
 	if err != nil {
-		if !(lim > 0 && amount > lim) && !exists && !(partial && !w.Cfg.MPP) {
+		if !(lim > 0 && amount > lim) && !exists && !(partial && !w.Cfg.MPP) && !(partial && qi >= 0) {
 			w.viol("C16", "melt-quote-within-limit-refused", "RequestMeltQuote(%d) refused: %v (melt max %d)", amount, err, lim)
 		}
 		return nil
@@ -728,7 +738,8 @@ func (w *W) opMelt(op string, mi int, ins, pay, status string) error {
 			m.Preimage = w.LN.Invoices[m.Hash].Preimage
 			q := w.Quotes[m.Internal]
 			q.Payments++
-			w.InternalSettled += q.Q.Amount
+			// what backs the internally settled mint quote is what the melt burned for it: the MELT quote's amount
+			w.InternalSettled += m.Q.Amount
 		}
 		w.settleModel(m)
 		// response must mirror the outcome
@@ -809,6 +820,7 @@ func (w *W) opCheck(op, ins, status string) error {
 }
 
 func (w *W) opRestart(op string, rotate bool, fee uint) error {
+	w.InfoReadWhileDisabled = false
 	err := w.M.Restart(rotate, fee)
 	w.note(op, err)
 	if err != nil {
